@@ -318,6 +318,9 @@ def main():
             return m.grp_put(a[0], GA.base(nb))
         m.contracts[PT + 'ConditionalNegate'] = c_condneg
 
+    def nb_of(b):
+        return b + '~'
+
     def t_ladder(fn, alias):
         def task(sub):
             def h(ctx):
@@ -336,11 +339,17 @@ def main():
                 half = (N - 1) // 2
                 low = m.bvlow
                 ctx.check(r.same(v), 'returns-receiver')
-                ctx.check(len(log.get('idx', [])) == 64, '64-window-lookups')
                 if not alias:
                     ctx.check(z3.is_true(z3.simplify(m.grp_get(p).coeff('P') == 1)) and set(m.grp_get(p).c) == {'P'}, 'operand-unchanged')
                 outs = []
                 used = set()
+                pc = [low.lo(c) for c in ctx.pc if isinstance(c, tm.T)]
+                if 'halves' not in log:
+                    # a path that never split the scalar (e.g. a short-scalar fast path): the windows must then spell s itself
+                    S = tm.lift(cat_limbs(sym_limbs('s')), 256)
+                    full = sum(z3.BV2Int(low.lo(tm.extract(S, 4 * j + 3, 4 * j))) * (16 ** j) for j in range(64))
+                    return (pc, z3.And([got.coeff('P') == full] + [got.coeff(k) == 0 for k in got.c if k != 'P']), 'direct')
+                ctx.check(len(log.get('idx', [])) == 64, '64-window-lookups')
                 for kk, hobj, b in ((k1, log['halves'][0], 'P'), (k2, log['halves'][1], 'Pbeta')):
                     neg = tm.ult(half, kk, 256)
                     kn_spec = tm.ite(neg, tm.bv('sub', N, kk, 256), kk, 256)
@@ -348,8 +357,8 @@ def main():
                     ctx.check(tm.eq(kn_code, kn_spec, 256), 'bv:half-normalised-to-min(k,n-k)')
                     lo16 = sum(z3.BV2Int(low.lo(tm.extract(kn_code, 4 * j + 3, 4 * j))) * (16 ** j) if isinstance(tm.extract(kn_code, 4 * j + 3, 4 * j), tm.T)
                                else z3.IntVal(tm.extract(kn_code, 4 * j + 3, 4 * j) * 16 ** j) for j in range(32))
-                    if fn == 'ScalarMult':
-                        nb = b + '~'
+                    if nb_of(b) in log.get('condneg', {}):
+                        nb = nb_of(b)
                         base0, ctrl = log['condneg'][nb]
                         ctx.check(base0 == b and tm.eq(tm.eq(ctrl, 0, 64), tm.bnot(neg), 0), 'bv:point-negated-iff-half>(n-1)/2')
                         outs.append(got.coeff(nb) == lo16)
@@ -359,14 +368,14 @@ def main():
                         sign = z3.If(low.lo(neg), -1, 1) if isinstance(neg, tm.T) else z3.IntVal(-1 if neg else 1)
                         outs.append(got.coeff(b) == sign * lo16)
                         used.add(b)
-                pc = [low.lo(c) for c in ctx.pc if isinstance(c, tm.T)]
-                return (pc, z3.And(outs + [got.coeff(k) == 0 for k in got.c if k not in used]))
+                return (pc, z3.And(outs + [got.coeff(k) == 0 for k in got.c if k not in used]), 'split')
             lbl = 'ladder/%s[%s]' % (fn, 'v=p' if alias else 'v|p')
             paths = sub.explore(lbl, h, mode='bv')
             for i, p in enumerate(paths):
                 if p.outcome == 'ok' and p.value:
                     sub.add('%s/v=(+-)low128(|k1|)*P+(+-)low128(|k2|)*lambda*P#p%d' % (lbl, i), p.value[0], p.value[1], mode='z3', timeout=300)
-            sub.add(lbl + '/witness-paths', [], len([p for p in paths if p.outcome == 'ok']) == (1 if fn == 'ScalarMult' else 4))
+            oks = [p for p in paths if p.outcome == 'ok']
+            sub.add(lbl + '/witness-paths', [], len(oks) >= 1 and all(p.value for p in oks))
         return task
     if not only or 'ladder' in only:
         for fn in ('ScalarMult', 'scalarMultVartimeGLV'):
@@ -383,4 +392,5 @@ def main():
 
 
 if __name__ == '__main__':
-    main()
+    from .common import run_main
+    run_main(main)
